@@ -786,6 +786,88 @@ pub fn random_item(cfg: &RunCfg, w: &WorkList, rng: &mut Rng, k: usize) -> Item 
 }
 
 // ---------------------------------------------------------------------------
+// validation of the reference matcher against the repository's Oniguruma corpus
+
+fn unhex(s: &str) -> Option<String> {
+    let b: Option<Vec<u8>> = (0..s.len() / 2).map(|i| u8::from_str_radix(&s[2 * i..2 * i + 2], 16).ok()).collect();
+    String::from_utf8(b?).ok()
+}
+
+/// Cases (kind, pattern, text, args) from $SYMX_CASES: x2 = group 0 span, x3 = span of the
+/// given group, n = no match.  The reference matcher is run concretely on each pattern that
+/// is inside its grammar and compared with Oniguruma's expected result.
+pub fn refval(cfg: &RunCfg) {
+    let path = std::env::var("SYMX_CASES").expect("SYMX_CASES");
+    let data = std::fs::read_to_string(&path).expect("read cases");
+    let (mut agree, mut disagree, mut skipped) = (0u64, Vec::<String>::new(), 0u64);
+    for line in data.lines() {
+        let f: Vec<&str> = line.split('\t').collect();
+        if f.len() < 3 {
+            continue;
+        }
+        let (kind, pat, text) = (f[0], unhex(f[1]), unhex(f[2]));
+        let (pat, text) = match (pat, text) {
+            (Some(p), Some(t)) => (p, t),
+            _ => {
+                skipped += 1;
+                continue;
+            }
+        };
+        let args: Vec<usize> = f[3..].iter().filter_map(|x| x.parse().ok()).collect();
+        let tree = match crate::Expr::parse_tree(&pat) {
+            Ok(t) => t,
+            Err(_) => {
+                skipped += 1;
+                continue;
+            }
+        };
+        // only patterns the engine itself accepts (the corpus is what the engine is tested on)
+        if crate::Regex::new(&pat).is_err() {
+            skipped += 1;
+            continue;
+        }
+        let rp = refsem::build(&tree.expr);
+        if rp.unsupported.is_some() || rp.has_f1 {
+            skipped += 1;
+            continue;
+        }
+        let r = std::panic::catch_unwind(std::panic::AssertUnwindSafe(|| refsem::search(&rp, text.as_str(), 0, false, 5_000_000)));
+        let r = match r {
+            Ok(r) => r,
+            Err(_) => {
+                disagree.push(std::format!("{:?} on {:?}: reference matcher panicked", pat, text));
+                continue;
+            }
+        };
+        let ok = match (&r.outcome, kind) {
+            (Outcome::Aborted, _) | (Outcome::LookBehindNotFixed, _) => {
+                skipped += 1;
+                continue;
+            }
+            (Outcome::NoMatch, "n") => true,
+            (Outcome::Match(c), "x2") => args.len() >= 2 && c[0] == Some((args[0], args[1])),
+            (Outcome::Match(c), "x3") => args.len() >= 3 && c.get(args[2]).cloned().flatten() == Some((args[0], args[1])),
+            _ => false,
+        };
+        if ok {
+            agree += 1;
+        } else {
+            disagree.push(std::format!("{} {:?} on {:?} expected {:?}: reference gives {}", kind, pat, text, args, ref_canon(&r.outcome)));
+        }
+    }
+    let mut s = std::format!("{{\"agree\":{},\"skipped\":{},\"disagree\":[", agree, skipped);
+    for (i, d) in disagree.iter().enumerate() {
+        if i > 0 {
+            s.push(',');
+        }
+        s.push_str(&jstr(d));
+    }
+    s.push_str("]}\n");
+    std::fs::write(&cfg.out, s).expect("write output");
+    println!("refval: agree={} disagree={} skipped={}", agree, disagree.len(), skipped);
+}
+
+// ---------------------------------------------------------------------------
 // output
 
 pub fn write_output(cfg: &RunCfg, reports: &[PatReport], _stats: &Stats, wall: f64, fixed_len: usize) {
